@@ -117,6 +117,19 @@ PROPS = {
              'BDD.succ is proved to return the stored fork (W9 read back gives u == negated(ite(var, high, low))). Function properties, '
              'descendants, sizes, to_nx and DOT exports are checked by run-time contracts (graph exports parsed back and evaluated).',
              bounded=['vlib.rtc.c18'], design_ref='DESIGN.md 7/C18'),
+    'C19': P('other',
+             'The C extensions cannot be built here (no CUDD/Sylvan/BuDDy). The .pyx sources are parsed on every run with Cython\'s own '
+             'parser. (a) For each wrapper and each operator symbol it accepts, the body of `apply` is interpreted with the symbol '
+             'concrete into a term over C-API calls; under ASSUMED contracts for the C API, z3 proves the term equal to the connective '
+             'named in C01 for all operand values, and quantifier forms are compared by operand roles with dd.bdd.BDD.apply (proved '
+             'in C03). (b) Reference discipline as a ledger by complete path enumeration: Function.init/__cinit__ takes exactly one '
+             'reference, __dealloc__ gives back exactly one (none when already released), wrap() initialises once, and in the loop-free '
+             'C-level recursions of cudd_zdd.pyx every local that took a reference has released it at every return. Violations cannot be '
+             'replayed (reported with no-failing-input-found). Not a proof about compiled code: category "other".',
+             bounded=[], tb=['C-API contracts are assumed; extensions not compiled or run; functions with loops over arrays are listed as not covered'],
+             technique='contract checking on the Cython parse tree: symbolic interpretation of apply per operator + z3 equality with '
+                       'the specification under assumed C-API contracts; reference ledger by exhaustive path enumeration',
+             design_ref='DESIGN.md 7/C19'),
 }
 
 NOTES = ('Technique family: contract-based deductive verification of the real code. Proof obligations are generated '
